@@ -461,7 +461,7 @@ def shard_main(ctx):
     # shards 4-7 (quick) / all shards (thorough): coverage-guided campaign over the string efuns that interpret one of their arguments
     if not ctx.failures and (ctx.tier == "thorough" or 4 <= ctx.shard < 8):
         from .. import fuzz
-        fuzz.campaign(ctx, "fuzz_strefun", "C01", strefun_root(ctx, "fuzz"), {"quick": 40000, "thorough": 3000000}[ctx.tier], max_len=512)
+        fuzz.campaign(ctx, "fuzz_strefun", "C01", strefun_root(ctx, "fuzz"), {"quick": 40000, "thorough": 1500000}[ctx.tier], max_len=512)
 
 
 def replay(ctx, case):
